@@ -384,7 +384,7 @@ PROPS = {
         'window placements are sampled from the classes row offset {0,1,5} x word offset {0,1,2,3} x parent wider by {0,1,17,64,65,130} columns x rows below or not']),
     'C02': alg(simple_jobs('elim', 640)),
     'C03': alg(simple_jobs('ple', 480, qshards=12), mc=lambda tier: gf2_mc(tier) + [mcjob('MC_PLE', 'MC_PLE', workers=12), mcjob('MC_PLE', 'MC_PLE_tall', workers=12)]),
-    'C04': alg(simple_jobs('trsm', 480)),
+    'C04': alg(simple_jobs('trsm', 480), mc=lambda tier: gf2_mc(tier) + [mcjob('MC_TRSM', workers=12, timeout=1800)]),
     'C05': alg(simple_jobs('inv', 320)),
     'C06': alg(simple_jobs('solve', 480)),
     'C07': alg(simple_jobs('kernel', 320)),
